@@ -284,13 +284,15 @@ structure Sound' (sw : Sw) (st0 : List Stat) (sw' : Sw) (outs : List Out) : Prop
   stats : sw'.stats = tally st0 outs
   ports : sw'.ports = sw.ports
   table : sw'.table = sw.table
+  flags : sw'.flags = sw.flags
   guard : ∀ p b, Out.frame p b ∈ outs → up sw.ports p = true
 
 theorem Sound'.of_finish {sw0 sw sw1 : Sw} {o1 : List Out} (n : Nat) (hp : sw0.ports = sw.ports) (ht : sw0.table = sw.table)
+    (hfl : sw0.flags = sw.flags)
     (h : Sound sw0 sw1 o1) : Sound' sw sw0.stats { sw1 with bufFree := (settle n o1).1 } (settle n o1).2 := by
   obtain ⟨hs, hg⟩ := h
   subst hs
-  refine ⟨by simp [tally_settle], hp, ht, ?_⟩
+  refine ⟨by simp [tally_settle], hp, ht, hfl, ?_⟩
   intro p b hm
   rw [← hp]
   exact hg p b ((settle_frames p b o1 n).mp hm)
@@ -301,7 +303,7 @@ theorem rxWire_sound (var : Variant) (hv : var.d8 = false) (sw : Sw) (f : Frame)
     (accepts sw f inPort = true → Sound' sw (bumpRx sw inPort wire.length).stats sw' outs) := by
   obtain ⟨sw1, o1, hc, rfl, rfl⟩ := finish_ok h
   obtain ⟨h1, h2⟩ := rxWireCore_sound var hv sw f inPort wire sw1 o1 hc
-  refine ⟨fun ha => ?_, fun ha => Sound'.of_finish _ rfl rfl (h2 ha)⟩
+  refine ⟨fun ha => ?_, fun ha => Sound'.of_finish _ rfl rfl rfl (h2 ha)⟩
   obtain ⟨rfl, rfl⟩ := h1 ha
   exact ⟨rfl, rfl⟩
 
@@ -315,13 +317,13 @@ theorem rxObj_sound (var : Variant) (hv : var.d8 = false) (sw : Sw) (f : Frame) 
   · obtain ⟨rfl, rfl⟩ := h1 ha
     exact ⟨rfl, rfl⟩
   · obtain ⟨b, hb, hs⟩ := h2 ha
-    exact ⟨b, hb, Sound'.of_finish _ rfl rfl hs⟩
+    exact ⟨b, hb, Sound'.of_finish _ rfl rfl rfl hs⟩
 
 theorem packetOut_sound (var : Variant) (hv : var.d8 = false) (sw : Sw) (acts : List Action) (f : Frame) (inPort : Nat)
     (sw' : Sw) (outs : List Out) (h : packetOut var sw acts f inPort = .ok (sw', outs)) : Sound' sw sw.stats sw' outs := by
   obtain ⟨sw1, o1, hc, rfl, rfl⟩ := finish_ok h
   obtain ⟨f', hc⟩ := dropFrame_ok hc
-  exact Sound'.of_finish _ rfl rfl (run_sound var hv _ _ _ _ _ _ _ _ hc)
+  exact Sound'.of_finish _ rfl rfl rfl (run_sound var hv _ _ _ _ _ _ _ _ hc)
 
 /-- nothing is accepted from a receive-disabled port (802.1D frames excepted), from a NO_RECV_STP port nothing that is
 802.1D, from a port that does not exist nothing at all -/
@@ -444,5 +446,170 @@ theorem runOps_counters (var : Variant) (hv : var.d8 = false) : ∀ (ops : List 
         simp only [countOps, h1]
         rw [← hc]
         exact ih sw1 sw2 os h2
+
+/-! ## the counters in closed form -/
+
+/-- what an operation does to the configuration (ports, flags, table); packets do not touch it -/
+def cfgStep (sw : Sw) : Op → Sw
+  | .portMod no hw c m => (portMod sw no hw c m).1
+  | .setConfig fl ml => { sw with flags := fl, missLen := ml }
+  | .flowAdd r => { sw with table := sw.table ++ [r] }
+  | .link no down =>
+    { sw with ports := mapPort sw.ports no fun p =>
+        { p with state := if down then clearBits p.state PS_LINK_DOWN ||| PS_LINK_DOWN else clearBits p.state PS_LINK_DOWN } }
+  | _ => sw
+
+/-- the reception an operation adds to the receive counters: (port, bytes), if it is a frame that is accepted -/
+def rxOf (sw : Sw) : Op → List (Nat × Nat)
+  | .rx f p wire => if accepts sw f p then [(p, wire.length)] else []
+  | .rxObj f p =>
+    match accepts sw f p, packFrame f with
+    | true, .ok b => [(p, b.length)]
+    | _, _ => []
+  | _ => []
+
+/-- all accepted receptions of a history, the configuration evolving by `cfgStep` -/
+def rxLog : Sw → List Op → List (Nat × Nat)
+  | _, [] => []
+  | sw, op :: ops => rxOf sw op ++ rxLog (cfgStep sw op) ops
+
+def rxCount (rx : List (Nat × Nat)) (no : Nat) : Nat := (rx.filter fun e => e.1 == no).length
+
+def rxBytes : List (Nat × Nat) → Nat → Nat
+  | [], _ => 0
+  | (p, n) :: r, no => (if p == no then n else 0) + rxBytes r no
+
+/-- **closed form**: initial counters + accepted receptions + transmitted frames -/
+def closed (st : List Stat) (rx : List (Nat × Nat)) (outs : List Out) : List Stat :=
+  st.map fun s => { s with rxP := s.rxP + rxCount rx s.no, rxB := s.rxB + rxBytes rx s.no,
+                           txP := s.txP + txCount outs s.no, txB := s.txB + txBytes outs s.no }
+
+theorem rxCount_append (a b : List (Nat × Nat)) (no : Nat) : rxCount (a ++ b) no = rxCount a no + rxCount b no := by
+  simp [rxCount, List.filter_append]
+
+theorem rxBytes_append (a b : List (Nat × Nat)) (no : Nat) : rxBytes (a ++ b) no = rxBytes a no + rxBytes b no := by
+  induction a with
+  | nil => simp [rxBytes]
+  | cons e r ih => obtain ⟨p, n⟩ := e; simp [rxBytes, ih]; omega
+
+theorem closed_append (st : List Stat) (r1 r2 : List (Nat × Nat)) (o1 o2 : List Out) :
+    closed (closed st r1 o1) r2 o2 = closed st (r1 ++ r2) (o1 ++ o2) := by
+  simp only [closed, List.map_map]
+  apply List.map_congr_left
+  intro s _
+  simp [rxCount_append, rxBytes_append, txCount_append, txBytes_append, Nat.add_assoc]
+
+theorem closed_tally (st : List Stat) (outs : List Out) : tally st outs = closed st [] outs := by
+  simp [tally, closed, rxCount, rxBytes]
+
+theorem closed_bump (sw : Sw) (p len : Nat) (outs : List Out) :
+    tally (bumpRx sw p len).stats outs = closed sw.stats [(p, len)] outs := by
+  simp only [tally, closed, bumpRx, List.map_map]
+  apply List.map_congr_left
+  intro s _
+  by_cases h : s.no = p
+  · subst h; simp [rxCount, rxBytes]
+  · have h' : ¬ p = s.no := fun e => h e.symm
+    simp [rxCount, rxBytes, h, h']
+
+theorem countStep_closed (sw : Sw) (op : Op) (outs : List Out) : countStep sw op outs = closed sw.stats (rxOf sw op) outs := by
+  cases op with
+  | rx f p wire =>
+    simp only [countStep, rxOf]
+    split
+    · exact closed_bump sw p wire.length outs
+    · exact closed_tally _ _
+  | rxObj f p =>
+    simp only [countStep, rxOf]
+    split
+    · exact closed_bump sw p _ outs
+    · exact closed_tally _ _
+  | _ => exact closed_tally _ _
+
+theorem rxOf_congr {sw sw2 : Sw} (hp : sw.ports = sw2.ports) (hf : sw.flags = sw2.flags) (op : Op) : rxOf sw op = rxOf sw2 op := by
+  have ha : ∀ f p, accepts sw f p = accepts sw2 f p := by
+    intro f p; simp only [accepts, rxAccepts, hp, hf]
+  cases op <;> simp [rxOf, ha]
+
+theorem cfgStep_congr {sw sw2 : Sw} (hp : sw.ports = sw2.ports) (hf : sw.flags = sw2.flags) (op : Op) :
+    (cfgStep sw op).ports = (cfgStep sw2 op).ports ∧ (cfgStep sw op).flags = (cfgStep sw2 op).flags := by
+  cases op with
+  | portMod no hw c m =>
+    simp only [cfgStep, portMod, hp]
+    split
+    · exact ⟨hp, hf⟩
+    · split
+      · exact ⟨hp, hf⟩
+      · exact ⟨rfl, hf⟩
+  | link no down => simp [cfgStep, hp, hf]
+  | _ => simp [cfgStep, hp, hf]
+
+theorem rxLog_congr : ∀ (ops : List Op) (sw sw2 : Sw), sw.ports = sw2.ports → sw.flags = sw2.flags → rxLog sw ops = rxLog sw2 ops := by
+  intro ops
+  induction ops with
+  | nil => intro _ _ _ _; rfl
+  | cons op rest ih =>
+    intro sw sw2 hp hf
+    obtain ⟨c1, c2⟩ := cfgStep_congr hp hf op
+    simp only [rxLog, rxOf_congr hp hf op, ih _ _ c1 c2]
+
+/-- the configuration after an operation is what `cfgStep` says -/
+theorem step_cfg (var : Variant) (hv : var.d8 = false) (sw : Sw) (op : Op) (sw' : Sw) (outs : List Out)
+    (h : step var sw op = .ok (sw', outs)) : sw'.ports = (cfgStep sw op).ports ∧ sw'.flags = (cfgStep sw op).flags := by
+  cases op with
+  | portMod no hw c m =>
+    simp only [step, Except.ok.injEq] at h
+    have e : sw' = (portMod sw no hw c m).1 := by rw [h]
+    subst e
+    exact ⟨rfl, rfl⟩
+  | setConfig fl ml => simp only [step, Except.ok.injEq, Prod.mk.injEq] at h; obtain ⟨rfl, _⟩ := h; exact ⟨rfl, rfl⟩
+  | flowAdd r => simp only [step, Except.ok.injEq, Prod.mk.injEq] at h; obtain ⟨rfl, _⟩ := h; exact ⟨rfl, rfl⟩
+  | link no down => simp only [step, Except.ok.injEq, Prod.mk.injEq] at h; obtain ⟨rfl, _⟩ := h; exact ⟨rfl, rfl⟩
+  | packetOut acts f inPort =>
+    simp only [step] at h
+    have := packetOut_sound var hv sw acts f inPort sw' outs h
+    exact ⟨this.ports, this.flags⟩
+  | rx f inPort wire =>
+    simp only [step] at h
+    obtain ⟨h1, h2⟩ := rxWire_sound var hv sw f inPort wire sw' outs h
+    cases ha : accepts sw f inPort with
+    | true => exact ⟨(h2 ha).ports, (h2 ha).flags⟩
+    | false => obtain ⟨rfl, _⟩ := h1 ha; exact ⟨rfl, rfl⟩
+  | rxObj f inPort =>
+    simp only [step] at h
+    obtain ⟨h1, h2⟩ := rxObj_sound var hv sw f inPort sw' outs h
+    cases ha : accepts sw f inPort with
+    | true => obtain ⟨b, _, hs⟩ := h2 ha; exact ⟨hs.ports, hs.flags⟩
+    | false => obtain ⟨rfl, _⟩ := h1 ha; exact ⟨rfl, rfl⟩
+
+/-- **counters of a whole history in closed form**: final = initial + the accepted receptions (acceptance judged against the
+configuration as the port-mods, link changes and set-configs before it left it) + every frame in the output logs -/
+theorem runOps_closed (var : Variant) (hv : var.d8 = false) : ∀ (ops : List Op) (sw sw' : Sw) (outss : List (List Out)),
+    runOps var sw ops = .ok (sw', outss) → sw'.stats = closed sw.stats (rxLog sw ops) outss.flatten := by
+  intro ops
+  induction ops with
+  | nil =>
+    intro sw sw' outss h
+    simp only [runOps, Except.ok.injEq, Prod.mk.injEq] at h
+    obtain ⟨rfl, rfl⟩ := h
+    simp [closed, rxLog, rxCount, rxBytes]
+  | cons op rest ih =>
+    intro sw sw' outss h
+    simp only [runOps, bind, Except.bind] at h
+    cases h1 : step var sw op with
+    | error e => simp [h1] at h
+    | ok r1 =>
+      obtain ⟨sw1, o1⟩ := r1
+      simp only [h1] at h
+      cases h2 : runOps var sw1 rest with
+      | error e => simp [h2] at h
+      | ok r2 =>
+        obtain ⟨sw2, os⟩ := r2
+        simp only [h2, pure, Except.pure, Except.ok.injEq, Prod.mk.injEq] at h
+        obtain ⟨rfl, rfl⟩ := h
+        have hc := step_counters var hv sw op sw1 o1 h1
+        obtain ⟨c1, c2⟩ := step_cfg var hv sw op sw1 o1 h1
+        rw [ih sw1 sw2 os h2, hc, countStep_closed, closed_append, rxLog_congr rest sw1 (cfgStep sw op) c1 c2]
+        simp [rxLog]
 
 end Pox.Actions
